@@ -81,6 +81,11 @@ func (fr *frame) call(x *ssa.Call, st *State, pos string) Value {
 			args = append(args, fr.operand(a, st))
 		}
 		key := cc.Method.FullName()
+		if h, ok := invokeIntrinsics[key]; ok {
+			if v, handled := h(fr, x, args, st, pos); handled {
+				return v
+			}
+		}
 		if ct := c.e.Contracts.ByKey[key]; ct != nil {
 			if rt, ok := recv.(*Term); ok {
 				c.oblige(st, "nil", c.f.Not(c.f.Eq(c.f.IfTyp(rt), c.f.Int(0))), pos, "method call on nil interface")
@@ -295,11 +300,28 @@ func (c *FnCtx) callSpec(ct *Contract, fn *ssa.Function, args []Value, st *State
 			c.assumeWF(st, t, rt)
 			return t
 		}
-		if ct.Rec {
+		if ct.Rec || c.revealed[ct.Key] {
 			c.ensureRecAxiom(ct, fn, name, sorts)
 		}
 		if res.Len() == 1 {
-			return mk(0)
+			app := mk(0)
+			if ct.Rec && c.unfolding[name] == 0 && !app.bound && strings.HasPrefix(string(app.sort), "Seq$") {
+				// the definition, unfolded once for these arguments, is a known equality
+				c.unfolding[name]++
+				c.ghost++
+				body := c.inlineCall(fn, args, nil, st)
+				c.ghost--
+				c.unfolding[name]--
+				if bt, ok := body.(*Term); ok && bt.sort == app.sort {
+					if strings.HasPrefix(string(app.sort), "Seq$") {
+						c.f.unfold[app.id] = bt
+						c.assume(st, c.f.rawEq(app, bt))
+					} else {
+						c.assume(st, c.f.Eq(app, bt))
+					}
+				}
+			}
+			return app
 		}
 		var tup Tuple
 		for i := 0; i < res.Len(); i++ {
@@ -498,6 +520,9 @@ func (c *FnCtx) havocLoc(st *State, l assignLoc, pos string) {
 			c.storeStruct(st, l.si, l.ref, v)
 		}
 	case l.region:
+		if l.lo == l.hi {
+			return // empty range: nothing is written
+		}
 		c.frameCheck(st, l.key, l.ref, l.lo, l.hi, pos)
 		seq := elemSort(c.heapSort[l.key])
 		reg := f.Select(c.heapGet(st, l.key, c.heapSort[l.key]), l.ref)
@@ -837,12 +862,113 @@ type extHandler func(fr *frame, x *ssa.Call, args []Value, st *State, pos string
 
 var extIntrinsics = map[string]extHandler{}
 
+// invokeIntrinsics: interface methods whose contract (specs/*.go) is implemented as a direct update of
+// ghost state. A handler may decline (handled=false); the contract is then used.
+var invokeIntrinsics = map[string]func(fr *frame, x *ssa.Call, args []Value, st *State, pos string) (Value, bool){}
+
+func init() {
+	newHash := func(alg int64) extHandler {
+		return func(fr *frame, x *ssa.Call, args []Value, st *State, pos string) Value {
+			c := fr.c
+			f := c.f
+			ref := c.alloc(st, 1)
+			h := f.MkIf(f.Int(int64(c.e.TypeID(types.NewPointer(types.Typ[types.Uint8])))+1000), ref)
+			c.store(st, c.ghostLV("HashAlg", ref), f.Int(alg))
+			c.store(st, c.ghostLV("HashInput", ref), f.SEmpty(SB))
+			return h
+		}
+	}
+	// hkdf.New(h, secret, salt, info): the reader remembers its inputs (ghost); only SHA-384 is modelled
+	extIntrinsics["golang.org/x/crypto/hkdf.New"] = func(fr *frame, x *ssa.Call, args []Value, st *State, pos string) Value {
+		c := fr.c
+		f := c.f
+		is384 := false
+		if fv, ok := args[0].(*FuncVal); ok && FnKey(fv.Fn) == "crypto/sha512.New384" {
+			is384 = true
+		} else {
+			c.note("hkdf.New with a hash other than sha512.New384 at %s: output left unspecified", pos)
+		}
+		ref := c.alloc(st, 1)
+		r := f.MkIf(f.Int(int64(c.e.TypeID(types.NewPointer(types.Typ[types.Uint16])))+1000), ref)
+		c.store(st, c.ghostLV("HKDFIkm", ref), c.sliceContent(st, SB, args[1].(*Term)))
+		c.store(st, c.ghostLV("HKDFSalt", ref), c.sliceContent(st, SB, args[2].(*Term)))
+		c.store(st, c.ghostLV("HKDFInfo", ref), c.sliceContent(st, SB, args[3].(*Term)))
+		c.store(st, c.ghostLV("HKDFIs384", ref), f.Bool(is384))
+		return r
+	}
+	extIntrinsics["crypto/sha512.New384"] = newHash(384)
+	extIntrinsics["crypto/sha512.New"] = newHash(512)
+	extIntrinsics["crypto/sha256.New"] = newHash(256)
+	invokeIntrinsics["(io.Writer).Write"] = func(fr *frame, x *ssa.Call, args []Value, st *State, pos string) (Value, bool) {
+		c := fr.c
+		f := c.f
+		w, ok := args[0].(*Term)
+		if !ok || w.sort != SIf {
+			return nil, false
+		}
+		c.oblige(st, "nil", f.Not(f.Eq(f.IfTyp(w), f.Int(0))), pos, "method call on nil interface")
+		ref := f.IfVal(w)
+		lv := c.ghostLV("HashInput", ref)
+		p := args[1].(*Term)
+		c.frameCheck(st, lv.key, ref, nil, nil, pos)
+		c.store(st, lv, f.SCat(c.load(st, lv), c.sliceContent(st, SB, p)))
+		return Tuple{f.SlLen(p), f.MkIf(f.Int(0), f.Int(0))}, true
+	}
+}
+
 const cbPath = "golang.org/x/crypto/cryptobyte"
 
 func init() {
 	extIntrinsics["(*"+cbPath+".Builder).AddUint8LengthPrefixed"] = builderLenPrefixed(1)
 	extIntrinsics["(*"+cbPath+".Builder).AddUint16LengthPrefixed"] = builderLenPrefixed(2)
 	extIntrinsics["(*"+cbPath+".Builder).AddUint24LengthPrefixed"] = builderLenPrefixed(3)
+	// The fixed-width writers: same meaning as their //@ ext contracts in specs/cryptobyte.go, implemented
+	// as direct updates of the ghost content so that encodings stay explicit concatenations.
+	extIntrinsics[cbPath+".NewBuilder"] = func(fr *frame, x *ssa.Call, args []Value, st *State, pos string) Value {
+		c := fr.c
+		bt := x.Call.Signature().Results().At(0).Type().Underlying().(*types.Pointer).Elem()
+		b := c.allocStruct(st, bt)
+		buf := args[0].(*Term)
+		c.store(st, c.ghostLV("BuilderBytes", b), c.sliceContent(st, SB, buf))
+		c.store(st, c.ghostLV("BuilderErr", b), c.f.False())
+		return b
+	}
+	add := func(mk func(c *FnCtx, st *State, x *ssa.Call, v Value) *Term) extHandler {
+		return func(fr *frame, x *ssa.Call, args []Value, st *State, pos string) Value {
+			c := fr.c
+			f := c.f
+			b, ok := args[0].(*Term)
+			if !ok {
+				c.unsupported("builder receiver is not first-order at %s", pos)
+				return nil
+			}
+			c.nilCheck(st, b, pos)
+			lv := c.ghostLV("BuilderBytes", b)
+			old := c.load(st, lv)
+			err := c.load(st, c.ghostLV("BuilderErr", b))
+			c.frameCheck(st, lv.key, b, nil, nil, pos)
+			c.store(st, lv, f.Ite(err, old, f.SCat(old, mk(c, st, x, args[1]))))
+			return nil
+		}
+	}
+	extIntrinsics["(*"+cbPath+".Builder).AddUint8"] = add(func(c *FnCtx, st *State, x *ssa.Call, v Value) *Term {
+		return c.f.SOne(SB, v.(*Term))
+	})
+	extIntrinsics["(*"+cbPath+".Builder).AddUint16"] = add(func(c *FnCtx, st *State, x *ssa.Call, v Value) *Term {
+		t := v.(*Term)
+		return c.f.SCat(c.f.SOne(SB, c.f.Div(t, c.f.Int(256))), c.f.SOne(SB, c.f.Mod(t, c.f.Int(256))))
+	})
+	extIntrinsics["(*"+cbPath+".Builder).AddBytes"] = add(func(c *FnCtx, st *State, x *ssa.Call, v Value) *Term {
+		return c.sliceContent(st, SB, v.(*Term))
+	})
+	extIntrinsics["(*"+cbPath+".Builder).BytesOrPanic"] = func(fr *frame, x *ssa.Call, args []Value, st *State, pos string) Value {
+		c := fr.c
+		b := args[0].(*Term)
+		c.nilCheck(st, b, pos)
+		err := c.load(st, c.ghostLV("BuilderErr", b))
+		c.oblige(st, "panic", c.f.Not(err), pos, "BytesOrPanic: no length prefix overflowed")
+		return c.bytesToFreshSlice(st, c.load(st, c.ghostLV("BuilderBytes", b)), "builder.bytes")
+	}
 }
 
 // ghostLV returns the location of ghost field name (a `//@ spec ghost` function in vspec) of object ref.
